@@ -24,7 +24,7 @@ func init() {
 			"time stamps of two testdrv sessions may differ by one constant (the driver mixes the real and its virtual clock when a session starts); the monitor requires the difference to be the same for every retained message and below 60 s",
 			"domain is the well-formed C04 domain, as the quantifier says",
 		},
-		Require:         []string{"sessions_through_clock_zero", "sessions_with_fractional_intervals", "sessions_l1", "sessions_l2", "filtered:sense", "filtered:clock", "filtered:sysex", "retained_messages_compared"},
+		Require:         []string{"sessions_through_clock_zero", "sessions_with_fractional_intervals", "sessions_beyond_2^31_ms", "sessions_l1", "sessions_l2", "filtered:sense", "filtered:clock", "filtered:sysex", "retained_messages_compared"},
 		FakeTimeWorkers: 1,
 		Run:             runC14,
 	})
@@ -236,6 +236,29 @@ func runC14(c *mon.Ctx) {
 		c14Check(c, w.Bytes, chunks, deltas, buf)
 		c.Count("sessions_with_fractional_intervals", 1)
 		c.DistinctBytes(w.Bytes, []byte(fmt.Sprint(deltas, frac)))
+	})
+
+	// long sessions: the accumulated time on the driver's clock passes 2^31 ms (24.8 days) and 2^32 ms, with a message of a
+	// filterable class being the first after the overflow; the time stamps of the remaining messages are those of the
+	// all-options session (whatever they are after the 32-bit wrap)
+	c.Each("long-sessions", c.N(24, 600), func(i int64, r *mon.Rand) {
+		buf := uint32(r.Pick(0, 64))
+		var chunks [][]byte
+		var deltas []int32
+		days := r.Pick(26, 30, 52)
+		for d := 0; d < days; d++ {
+			// once a day: one of the filterable classes first, then a note
+			first := [][]byte{{0xF8}, {0xFE}, {0xF0, 0x7D, byte(d), 0xF7}, {0x90, byte(d), 1}}[(int(i)+d)%4]
+			chunks = append(chunks, first, []byte{0x90, byte(d), 100}, []byte{0x80, byte(d), 0})
+			deltas = append(deltas, int32(24*3600*1000-7), 3, 4)
+		}
+		var stream []byte
+		for _, ch := range chunks {
+			stream = append(stream, ch...)
+		}
+		c14Check(c, stream, chunks, deltas, buf)
+		c.Count("sessions_beyond_2^31_ms", 1)
+		c.DistinctBytes(stream, []byte(fmt.Sprint("long", i, days)))
 	})
 
 	c.Each("random", c.N(10_000, 1_500_000), func(i int64, r *mon.Rand) {
